@@ -102,7 +102,7 @@ func (p *Program) nonceStores(skip *ssa.Function) (flagSets, others []*ssa.Store
 
 // isNonceZeroTest: the atom says that a nonce array is (Pol) / is not (!Pol) all zero:
 // a comparison of the array with the zero array, or a call of a helper still named nonceIsZero.
-func nonceZeroAtom(a Atom) (isZero bool, ok bool) {
+func nonceZeroAtom(p *Program, a Atom) (isZero bool, ok bool) {
 	switch a.Kind {
 	case "call":
 		if a.Call != nil && a.Call.S == pkgStream+".nonceIsZero" {
@@ -114,6 +114,17 @@ func nonceZeroAtom(a Atom) (isZero bool, ok bool) {
 			// (the index is the counter of a range loop over the array: any byte, not a fixed one)
 			if b := a.X.Args[0]; b != nil && (strings.HasSuffix(b.String(), ".nonce)") || strings.HasSuffix(b.String(), ".nonce))")) {
 				return false, true
+			}
+		}
+		// compared (bytes.Equal) with a package-level array of the same type that nothing ever writes
+		if (a.Op == "==" || a.Op == "!=") && a.X != nil && a.Y != nil && a.X.Op == "Slice" && a.Y.Op == "Slice" && len(a.X.Args) == 3 && len(a.Y.Args) == 3 {
+			full := func(t *Term) bool { return t.Args[1].String() == "_" && t.Args[2].String() == "_" }
+			if g, isG := a.Y.Args[0].V.(*ssa.Global); isG && full(a.X) && full(a.Y) && strings.HasSuffix(a.X.Args[0].String(), ".nonce)") && p != nil && p.globalNeverWritten(g) {
+				if pt, isP := g.Type().Underlying().(*types.Pointer); isP {
+					if at, isA := pt.Elem().Underlying().(*types.Array); isA && at.Len() == 12 {
+						return a.Op == "==", true
+					}
+				}
 			}
 		}
 		if (a.Op == "==" || a.Op == "!=") && a.Y != nil && a.Y.Op == "Const" && len(a.Y.S) > 5 && a.Y.S[:5] == "zero(" {
